@@ -253,7 +253,7 @@ func GenStore(r *rand.Rand, oddIDs bool) Store {
 
 // QFeat switches constructs of the query generator on and off.
 type QFeat struct {
-	Inline, Untyped, Named, Directives, CompositeDirectives, AliasShadow, Typename, NodeRoot, CondID, RepeatKeys bool
+	Inline, Untyped, Named, Directives, CompositeDirectives, AliasShadow, Typename, NodeRoot, CondID, RepeatKeys, ArgVars bool
 	Depth                                                                                                   int
 }
 
@@ -294,11 +294,20 @@ func (g *QGen) directive(composite bool) string {
 	return fmt.Sprintf(" %s(if: %s)", d, g.boolVar())
 }
 
-func (g *QGen) sel(typeName string, depth int) string {
+// level tracks, for one object position of the response, which field each response key denotes, so that
+// selections merged by fragments and repeated keys stay mergeable (OverlappingFieldsCanBeMerged)
+type level struct {
+	used map[string]string
+	sub  map[string]*level
+}
+
+func newLevel() *level { return &level{used: map[string]string{}, sub: map[string]*level{}} }
+
+func (g *QGen) sel(typeName string, depth int, lvl *level) string {
 	def := g.Schema.Types[typeName]
 	var parts []string
 	n := 1 + g.R.Intn(4)
-	used := map[string]string{}
+	used := lvl.used
 	for i := 0; i < n; i++ {
 		k := g.R.Intn(10)
 		if !g.F.Named && k >= 8 {
@@ -331,7 +340,7 @@ func (g *QGen) sel(typeName string, depth int) string {
 			if key == "id" && f.Name != "id" {
 				continue
 			}
-			if prev, ok := used[key]; ok && prev != f.Name {
+			if prev, ok := used[key]; ok && (prev != f.Name || len(f.Arguments) > 0) {
 				continue
 			}
 			ft := f.Type
@@ -342,7 +351,15 @@ func (g *QGen) sel(typeName string, depth int) string {
 			s := f.Name
 			if len(f.Arguments) > 0 {
 				ids := []string{"u1", "u2", "p1", "c1", "d2", "zzz"}
-				s += fmt.Sprintf("(id: %q)", ids[g.R.Intn(len(ids))])
+				if g.F.ArgVars && g.R.Intn(2) == 0 {
+					name := fmt.Sprintf("a%d", len(g.vdefs))
+					g.vdefs = append(g.vdefs, "$"+name+": ID!")
+					g.Vars[name] = ids[g.R.Intn(len(ids)-1)]
+					s += fmt.Sprintf("(id: $%s)", name)
+					g.feat("arg-var")
+				} else {
+					s += fmt.Sprintf("(id: %q)", ids[g.R.Intn(len(ids))])
+				}
 				g.feat("args")
 			}
 			if key != f.Name {
@@ -355,7 +372,10 @@ func (g *QGen) sel(typeName string, depth int) string {
 				if _, ok := used[key]; ok && !g.F.RepeatKeys {
 					continue
 				}
-				s += g.directive(true) + " { " + g.sel(tdef.Name, depth-1) + " }"
+				if lvl.sub[key] == nil {
+					lvl.sub[key] = newLevel()
+				}
+				s += g.directive(true) + " { " + g.sel(tdef.Name, depth-1, lvl.sub[key]) + " }"
 			} else if f.Name != "id" || g.F.CondID {
 				s += g.directive(false)
 			}
@@ -367,7 +387,7 @@ func (g *QGen) sel(typeName string, depth int) string {
 			if len(poss) > 0 && g.R.Intn(2) == 0 {
 				cond = poss[g.R.Intn(len(poss))].Name
 			}
-			inner := g.sel(cond, depth-1)
+			inner := g.sel(cond, depth-1, lvl)
 			fd := g.directive(true)
 			g.feat("inline")
 			if g.F.Untyped && g.R.Intn(4) == 0 && cond == typeName {
@@ -380,7 +400,7 @@ func (g *QGen) sel(typeName string, depth int) string {
 			cond := typeName
 			name := fmt.Sprintf("F%d", g.nfrag)
 			g.nfrag++
-			inner := g.sel(cond, depth-1)
+			inner := g.sel(cond, depth-1, lvl)
 			g.frags = append(g.frags, fmt.Sprintf("fragment %s on %s { %s }", name, cond, inner))
 			g.feat("named")
 			parts = append(parts, "..."+name+g.directive(true))
@@ -408,15 +428,26 @@ func (g *QGen) Query(opName string) string {
 	if d == 0 {
 		d = 3
 	}
-	body := g.sel("Query", d+g.R.Intn(2))
+	body := g.sel("Query", d+g.R.Intn(2), newLevel())
+	rest := " { " + body + " } " + strings.Join(g.frags, " ")
+	// declare only the variables that survived into the text
+	var defs []string
+	for _, vd := range g.vdefs {
+		name := vd[:strings.Index(vd, ":")]
+		if strings.Contains(rest, name+")") || strings.Contains(rest, name+" ") {
+			defs = append(defs, vd)
+		} else {
+			delete(g.Vars, name[1:])
+		}
+	}
 	q := "query"
 	if opName != "" {
 		q += " " + opName
 	}
-	if len(g.vdefs) > 0 {
-		q += "(" + strings.Join(g.vdefs, ", ") + ")"
+	if len(defs) > 0 {
+		q += "(" + strings.Join(defs, ", ") + ")"
 	}
-	return q + " { " + body + " } " + strings.Join(g.frags, " ")
+	return q + rest
 }
 
 var monoSchema *ast.Schema
